@@ -33,7 +33,8 @@ type view struct {
 
 type caseJ struct {
 	Site     string   `json:"site"`
-	Mode     string   `json:"mode"` // forced | live | stress
+	Mode     string   `json:"mode"`            // forced | forced2 | live | stress
+	Site2    string   `json:"site2,omitempty"` // forced2: the site of request 2
 	Yield    string   `json:"yield,omitempty"`
 	Variant  string   `json:"variant,omitempty"`
 	N        int      `json:"n"`
@@ -57,9 +58,10 @@ type prepared struct {
 type siteDef struct {
 	name    string
 	variant string
-	family  string   // which part of the world the site uses (rebuilt after a deadlock)
-	yields  []string // yield points of the site's model: forced schedules compared with the model
-	live    []string // further yield points: forced schedules judged by the oracles only
+	family  string      // which part of the world the site uses (rebuilt after a deadlock)
+	yields  []string    // yield points of the site's model: forced schedules compared with the model
+	live    []string    // further yield points: forced schedules judged by the oracles only
+	mixed   [][2]string // (yield point, other site): request 2 is a request of the other site on the same object
 	prepare func(w *world, n int) prepared
 	stressN [2]int // n for quick / thorough
 	rounds  [2]int // stress rounds for quick / thorough
@@ -86,6 +88,8 @@ func coqCase(c caseJ) string {
 		mode = fmt.Sprintf("(Hang %d%%nat %q)", c.N, c.Yield)
 	case c.Mode == "forced":
 		mode = fmt.Sprintf("(Forced %q %s)", c.Yield, lib.CoqBool(c.Blocked))
+	case c.Mode == "forced2":
+		mode = fmt.Sprintf("(Forced2 %q %q %s)", c.Site2, c.Yield, lib.CoqBool(c.Blocked))
 	case c.Mode == "live":
 		mode = fmt.Sprintf("(Live %q %s)", c.Yield, lib.CoqBool(c.Blocked))
 	}
@@ -115,12 +119,14 @@ func runEpisode(w *world, s *siteDef, c caseJ) caseJ {
 	var p prepared
 	if c.Mode == "live" {
 		p = livePrepare(w, s, c.Yield)
+	} else if c.Mode == "forced2" {
+		p = mixedPrepare(w, s, c.Site2)
 	} else {
 		p = s.prepare(w, c.N)
 	}
 	c.Requests = p.desc
 	switch c.Mode {
-	case "forced", "live":
+	case "forced", "forced2", "live":
 		res := runForced(c.Yield, p.reqs[0], p.reqs[1])
 		if !res.reached {
 			fatal("site %s: request 1 finished without passing yield point %s", s.name, c.Yield)
@@ -157,7 +163,7 @@ func runEpisode(w *world, s *siteDef, c caseJ) caseJ {
 }
 
 func key(c caseJ) string {
-	b, _ := json.Marshal([]interface{}{c.Site, c.Variant, c.Mode, c.Yield, c.N, c.Acked, c.Views, c.Extra, c.Blocked, c.Hung})
+	b, _ := json.Marshal([]interface{}{c.Site, c.Site2, c.Variant, c.Mode, c.Yield, c.N, c.Acked, c.Views, c.Extra, c.Blocked, c.Hung})
 	return string(b)
 }
 
@@ -230,7 +236,7 @@ func main() {
 		if s == nil {
 			fatal("replay names unknown site %q/%q", c.Site, c.Variant)
 		}
-		add(s, caseJ{Site: c.Site, Variant: c.Variant, Mode: c.Mode, Yield: c.Yield, N: c.N, Seed: c.Seed})
+		add(s, caseJ{Site: c.Site, Site2: c.Site2, Variant: c.Variant, Mode: c.Mode, Yield: c.Yield, N: c.N, Seed: c.Seed})
 		run.Finish("c11case", "replay", tail)
 		shutdown()
 		return
@@ -252,6 +258,9 @@ func main() {
 	}
 	for i := range sites {
 		s := &sites[i]
+		for _, m := range s.mixed {
+			add(s, caseJ{Site: s.name, Site2: m[1], Variant: s.variant, Mode: "forced2", Yield: m[0], N: 2, Seed: rng.U64()})
+		}
 		for _, y := range s.live {
 			add(s, caseJ{Site: s.name, Variant: s.variant, Mode: "live", Yield: y, N: 2, Seed: rng.U64()})
 		}
